@@ -277,7 +277,14 @@ def simple_text(tree, loader_cls):
             return tag
         if re.fullmatch(r"[\w:,./!-]+", tag):
             return '!<%s>' % tag
-        raise Unsupported(tag)
+        try:
+            raw = tag.encode('utf-8')
+        except UnicodeEncodeError:
+            raise Unsupported(tag)
+        # verbatim tag with %XX escapes (the scanner decodes them)
+        return '!<%s>' % ''.join(
+            chr(b) if chr(b).isalnum() or chr(b) in "-_.:/" else '%%%02X' % b
+            for b in raw)
 
     def scalar(n):
         v = n.value
